@@ -68,8 +68,12 @@ sequential result by construction.  That transfers to the code only if the Go fu
   converterFunctions.go:633, 946, 1479 and 1763 (all four sites; exit 66 with `halt_on_error=1`); the same program
   without the toggler gives no report.  Toggling the flag is not a converter call, so this lies outside C06's statement
   (concurrent *calls* equal sequential calls); it is recorded here and in the `assumptions` of tools/propcfg/C06.py.
-* the harness runs 4–32 goroutines over shared inputs through all five functions, in-process and in a child built with
-  `go build -race`, and compares every result with the sequential one (`conc.run` records; supporting evidence).
+* the harness runs 4–32 goroutines through all five functions, in-process and in a child built with `go build -race`
+  (both tiers), and compares every result with the sequential one (`conc.run` records; supporting evidence): shared
+  inputs and inputs that differ from goroutine to goroutine (a `RawPanelSupport` capability set per goroutine, own texts /
+  images / event lists), multi-line text and JSON payloads, graphics transfers of all goroutines held at their
+  last-but-one line and released together so that one completes while another starts, and every returned slice / message
+  held and compared again after later calls and after all goroutines finished (harness/conc.go).
 Outside the model: the Go memory model and races inside `regexp`, `encoding/json`, `proto` (partial).
 -/
 namespace RawPanelVerif.C06
